@@ -161,6 +161,11 @@ class Recorder:
             post["n"] = int(len(imp.decisions))
             if not (len(imp.decisions) == len(imp.rewards) == len(imp.contexts)):
                 post["n"] = -1
+        if post["n"] >= 0 and cfg.np in ("radius", "knearest", "lsh", "clusters") and getattr(imp, "decisions", None) is not None \
+                and post["n"] == len(self.rows):
+            # the stored observations themselves: arm, converted reward (units), context of every row
+            post["stored"] = [[cfg.cf.spec_label(a.item() if hasattr(a, "item") else a), self.units(r), [int(v) if float(v) == int(v) else [int(round(v * 1000)), 1000] for v in x]]
+                              for a, r, x in zip(imp.decisions, imp.rewards, imp.contexts)]
         if cfg.np == "lsh":
             post["tables"] = [[[int(i) + 1 for i in imp.table_to_hash_to_index[k].get(h, [])]
                                for h in range(2 ** cfg.n_dims)] for k in range(cfg.n_tables)]
